@@ -192,6 +192,38 @@ func checkC03(c *Ctx) {
 	for i := 0; i < c.N(4000, 60000); i++ {
 		add("N4-random", genNumber(r))
 	}
+	// N5: plain decimals with 14..20 significant digits and the point anywhere (no exponent):
+	// the band where a "digits as integer, divide by a power of ten" shortcut rounds twice
+	// (10^15 < 2^53 < 10^16), half of them with a leading 9 so that the digits exceed 2^53
+	for i := 0; i < c.N(6000, 80000); i++ {
+		nd := 14 + r.Intn(7)
+		ds := make([]byte, nd)
+		for j := range ds {
+			ds[j] = byte('0' + r.Intn(10))
+		}
+		if i%2 == 0 {
+			ds[0] = '9'
+		} else if ds[0] == '0' {
+			ds[0] = '1'
+		}
+		ds[nd-1] = byte('1' + 2*r.Intn(5)) // odd last digit
+		pt := r.Intn(nd + 1)
+		lit := string(ds[:pt]) + "." + string(ds[pt:])
+		if pt == 0 {
+			lit = "0" + lit
+		}
+		if pt == nd {
+			lit = string(ds) + ".0"
+		}
+		if r.Chance(1, 4) {
+			lit = "-" + lit
+		}
+		add("N5-plain-decimal-15to20-digits", lit)
+		// and the same digits with an exponent instead of the point
+		if i%3 == 0 {
+			add("N5-digits-exponent", string(ds)+"e-"+fmt.Sprint(nd-pt))
+		}
+	}
 	flush()
 
 	// parseNumber directly vs the model's num operation (delimiters included)
